@@ -1971,21 +1971,25 @@ func (tc *typechecker) checkCompositeLiteral(node *ast.CompositeLiteral, typ ref
 	case reflect.Slice, reflect.Array:
 
 		hasIndex := map[int]struct{}{}
+		index := -1
 		for i := range node.KeyValues {
 			kv := &node.KeyValues[i]
+			index++
 			if kv.Key != nil {
 				keyTi := tc.checkExpr(kv.Key)
 				if keyTi.Constant == nil {
 					panic(tc.errorf(node, "index must be non-negative integer constant"))
 				}
-				if keyTi.IsConstant() {
-					index := int(keyTi.Constant.int64())
-					if _, ok := hasIndex[index]; ok {
-						panic(tc.errorf(node, "duplicate index in %s literal: %s", ti.Type.Kind(), kv.Key))
-					}
-					hasIndex[index] = struct{}{}
-				}
+				index = int(keyTi.Constant.int64())
 			}
+			// An element without a key has the index of the previous one plus one.
+			if _, ok := hasIndex[index]; ok {
+				if kv.Key != nil {
+					panic(tc.errorf(node, "duplicate index in %s literal: %s", ti.Type.Kind(), kv.Key))
+				}
+				panic(tc.errorf(node, "duplicate index in %s literal: %d", ti.Type.Kind(), index))
+			}
+			hasIndex[index] = struct{}{}
 			var elemTi *typeInfo
 			if cl, ok := kv.Value.(*ast.CompositeLiteral); ok {
 				if ti.Type.Elem().Kind() == reflect.Pointer {
